@@ -151,6 +151,39 @@ def run(chk: Check, model):
     sup = T.subst(r.attr("self", "_supervisor"), {})
     chk.add("C06.rebind", "synchronizer wraps the supervisor given", sup == T.sym("supervisor"), f"self._supervisor = {T.show(sup)}", chk.loc(fi))
 
+    # ------------------------------------------------------------------ the decorator every user step goes through
+    # BaseNode.__init_subclass__ replaces cls.step by no_weaktype(...)(cls.step): the wrapper must run the wrapped function once per call
+    # (a second evaluation - also an abstract one, jax.eval_shape(lambda: fn(...)) - runs the Python body of an un-jitted step again)
+    f_sub = model.func("node.BaseNode.__init_subclass__")
+    wraps = [n for n in ast.walk(f_sub.node) if isinstance(n, ast.Assign) and len(n.targets) == 1 and isinstance(n.targets[0], ast.Attribute) and n.targets[0].attr == "step"]
+    chk.floor("C06.rebind", "class-level wrapping of step", len(wraps), 1)
+    for w in wraps:
+        v = w.value
+        deco = v.func.func if isinstance(v, ast.Call) and isinstance(v.func, ast.Call) else None
+        dname = (deco.attr if isinstance(deco, ast.Attribute) else deco.id if isinstance(deco, ast.Name) else None)
+        cands = [q for q in model.functions if q.split(".")[-1] == dname and "." in q and model.functions[q].parent is None and not model.functions[q].cls] if dname else []
+        okw = len(cands) == 1 and isinstance(v, ast.Call) and len(v.args) == 1 and isinstance(v.args[0], ast.Attribute) and v.args[0].attr == "step"
+        n_calls, bad = 0, []
+        if okw:
+            fdec = model.functions[cands[0]]
+            chk.used(fdec.qualname)
+            # the innermost function taking (*args, **kwargs) is the wrapper; the wrapped function is the parameter of its parent
+            inner = [n for n in ast.walk(fdec.node) if isinstance(n, ast.FunctionDef) and n.args.vararg is not None and n.args.kwarg is not None]
+            outer = [n for n in ast.walk(fdec.node) if isinstance(n, ast.FunctionDef) and inner and any(c is inner[0] for c in n.body)]
+            okw = len(inner) == 1 and len(outer) == 1 and len(outer[0].args.args) == 1
+            if okw:
+                fn = outer[0].args.args[0].arg
+                nested = {id(x) for d in ast.walk(inner[0]) if isinstance(d, (ast.Lambda, ast.FunctionDef, ast.For, ast.While, ast.ListComp, ast.GeneratorExp, ast.DictComp, ast.SetComp)) and d is not inner[0] for x in ast.walk(d) if x is not d}
+                for n in ast.walk(inner[0]):
+                    if isinstance(n, ast.Name) and n.id == fn and isinstance(n.ctx, ast.Load):
+                        call = [c for c in ast.walk(inner[0]) if isinstance(c, ast.Call) and c.func is n]
+                        if call and id(n) not in nested:
+                            n_calls += 1
+                        else:
+                            bad.append(n.lineno)
+        chk.add("C06.rebind", "the class-level step wrapper runs the wrapped step exactly once per call", bool(okw) and n_calls == 1 and not bad,
+                f"the wrapper installed around cls.step calls the wrapped function {n_calls} time(s) directly and refers to it {len(bad)} more time(s) (lines {bad}): "
+                "every further evaluation runs the step body again", chk.loc(f_sub, w))
     # ------------------------------------------------------------------ who may replace the step chain of a wrapper
     # Only warmup may rebind async_step, only to the jit / AOT-compiled form of the same method, and only when the caller asked
     # for it (jit_step): with jit_step=False the Python body of node.step -- its side effects -- must run on every tick.
@@ -196,7 +229,8 @@ def run(chk: Check, model):
     # ------------------------------------------------------------------ compiled: partition runner
     fi = model.func("partition_runner.make_run_partition_excl_supervisor")
     chk.used(fi.qualname)
-    from ..compiled import CompiledView
+    from ..compiled import CompiledView, slot_elem
+    S = T.sym
     cv = CompiledView(model)  # (finds the three closures whatever they are called / however the node runner is bound)
     ev, r = cv.ev, cv.outer
     if ev.notes:
@@ -244,6 +278,33 @@ def run(chk: Check, model):
         chk.add("C06.count", "_run_generation: slot with run=False", (lo, hi) == (0, 0), f"step calls for a masked slot in [{lo},{hi}], expected [0,0]", chk.loc(f_gen, cond.node))
         lo, hi, w = flow.count_range(per_iter, T.mk_not(region))
         chk.add("C06.count", "_run_generation: skipped slot", (lo, hi) == (0, 0), f"step calls for a skipped slot in [{lo},{hi}], expected [0,0]", chk.loc(f_gen, cond.node))
+        # which slots are passed over: the supervisor's slot and the slots of exactly the kinds the user asked to skip
+        el_ = slot_elem(cv.run_generation)
+        name_ = T.mk_index(el_, T.ZERO) if el_ is not None else None
+        ins_ = [a for a in flow.bool_atoms(region, []) if a[0] == "in" and a[1] == name_]
+        oks = len(ins_) == 1
+        if oks:
+            sk = ins_[0][2]
+            none_ = T.eq(S("skip"), T.NONE, numeric=False)
+            off, on = T.assume(sk, none_, True), T.assume(sk, none_, False)
+            comps = [x for x in T.walk(on) if x[0] == "comp"]
+            oks = off == ("list", ()) and len(comps) == 1
+            if oks:
+                c = comps[0]
+                items = T.mk_call("timings.slots.items", [])
+                els = [x for x in T.walk(c[2]) if x[0] == "elem" and x[1] == items]
+                oks = c[1] == "list" and len(c[3]) == 1 and c[3][0][1] == items and bool(els) and c[2] == T.mk_index(els[0], T.ZERO) \
+                    and tuple(c[4]) == (("in", T.mk_attr(T.mk_index(els[0], T.ONE), "kind"), S("skip")),) and on in (T.mk_call("+", [c, S("skip")]), c, T.add(c, S("skip")))
+        chk.add("C06.count", "_run_generation: only the supervisor's slot and the slots of the skipped kinds are passed over", bool(oks),
+                f"a slot is passed over under {T.show(T.mk_not(region))[:260]}, expected slot == supervisor_slot or slot in [n for n, v in timings.slots.items() if v.kind in skip] (+ skip)", chk.loc(f_gen, cond.node))
+        f_gi = model.func("graph.Graph.__init__")
+        rgi = SymEval(model).run_function(f_gi)
+        mk = [e for e in rgi.events if e.kind == "call" and e.name.endswith("make_run_partition_excl_supervisor")]
+        b_ = model.bind_call("partition_runner.make_run_partition_excl_supervisor", mk[0].args, mk[0].kwargs) if len(mk) == 1 else {}
+        sk_ = b_.get("skip", T.NONE)
+        user = T.mk_ite(T.mk_call("isinstance", [S("skip"), S("list")]), S("skip"), T.mk_ite(T.mk_call("isinstance", [S("skip"), S("str")]), ("list", (S("skip"),)), ("list", ())))
+        chk.add("C06.count", "Graph hands the user's skip list to the partition runner unchanged", len(mk) == 1 and sk_ == rgi.attr("self", "_skip") and sk_ == user,
+                f"the partition runner is built with skip = {T.show(sk_)[:200]}, expected the constructor's `skip` argument (as a list)", chk.loc(f_gi, mk[0].node if mk else None))
         ok = pred[0] == "attr" and pred[2] == "run"
         chk.add("C06.count", "_run_generation: predicate is the slot's run mask", ok, f"lax.cond predicate is {T.show(pred)[:160]}, expected <slot timings>.run", chk.loc(f_gen, cond.node))
         # the true branch is the first callable
